@@ -11,6 +11,7 @@ import (
 	"runtime/debug"
 	"strings"
 	"sync/atomic"
+	"syscall"
 	"testing"
 	"testing/synctest"
 	"time"
@@ -289,8 +290,13 @@ func TestWorker(t *testing.T) {
 				ch = NewChoices(v.Seed, v.Run)
 			}
 			if a.TraceOut != "" {
-				if f, err := os.OpenFile(a.TraceOut, os.O_CREATE|os.O_WRONLY|os.O_TRUNC, 0o644); err == nil {
-					ch.Sink = f
+				const sinkSize = 8 * (defaultDrawLimit + 2)
+				if f, err := os.OpenFile(a.TraceOut, os.O_CREATE|os.O_RDWR|os.O_TRUNC, 0o644); err == nil {
+					if f.Truncate(sinkSize) == nil {
+						if mm, err := syscall.Mmap(int(f.Fd()), 0, sinkSize, syscall.PROT_READ|syscall.PROT_WRITE, syscall.MAP_SHARED); err == nil {
+							ch.Sink = mm
+						}
+					}
 				}
 			}
 			ch.Keep = true
